@@ -69,7 +69,7 @@ def install(spec: Spec):
     spec.methods[('EventBus', '_run_loop')] = 'EventBus._run_loop'
 
     BUS_INV = 'implies(self._is_running, self.event_queue is not None) and implies(self.event_queue is not None, self._on_idle is not None)'
-    spec.fn('EventBus._start', file=S, qual='EventBus._start', params={'self': 'EventBus'}, returns='NoneType',
+    spec.fn('EventBus._start', file=S, qual='EventBus._start', params={'self': 'EventBus'}, returns='NoneType', spawns=['EventBus._run_loop'],
             modifies=[('event_queue', 'self'), ('_on_idle', 'self'), ('_runloop_task', 'self'), ('_is_running', 'self')],
             requires=[('bus_invariant', BUS_INV, ['C14'])],
             callsites={'weakref.WeakSet': {'model': null_model}, 'loop._eventbus_instances.add': {'model': null_model}},
@@ -196,7 +196,7 @@ def install(spec: Spec):
     spec.define('has_result', ['bus', 'event', 'h'],
                 "hid(bus, h) in event.event_results and (event.event_results[hid(bus, h)].status == 'pending' or "
                 "event.event_results[hid(bus, h)].status == 'started' or event.event_results[hid(bus, h)].completed_at is not None)")
-    spec.define('would_skip', ['bus', 'event', 'h'], "forward_seen(event, h) or has_result(bus, event, h)")
+    spec.define('would_skip', ['bus', 'event', 'h'], "forward_seen(event, h) or has_result(bus, event, h)", opaque=True)
 
     spec.fn('EventBus._handler_dispatched_ancestor', trusted=True, params={'self': 'EventBus', 'event': 'BaseEvent', 'handler_id': 'str'}, returns='int',
             allocates=False, ensures=[('nonneg', 'result >= 0', [])],
@@ -217,7 +217,7 @@ def install(spec: Spec):
 
     CANDS = "(self.handlers.get(event.event_type, []) + self.handlers.get('*', []))"
     spec.fn('EventBus._get_applicable_handlers', file=S, qual='EventBus._get_applicable_handlers',
-            params={'self': 'EventBus', 'event': 'BaseEvent'}, returns='dict[str,Handler]', allocates=False,
+            params={'self': 'EventBus', 'event': 'BaseEvent'}, returns='dict[str,Handler]', allocates=False, typed_elements=True,
             locals={'applicable_handlers': 'list[Handler]', 'filtered_handlers': 'dict[str,Handler]'},
             loops={0: {'inv': [
                 ('complete', "forall(lambda j: implies(0 <= j and j < loop_i and not would_skip(self, event, applicable_handlers[j]), "
@@ -384,10 +384,10 @@ def install(spec: Spec):
 
     spec.fn('EventBus.process_event', file=S, qual='EventBus.process_event', is_async=True, interference='process',
             params={'self': 'EventBus', 'event': 'BaseEvent', 'timeout': 'opt[real]'}, returns='NoneType', locals={'checked_ids': 'set[str]'},
-            requires=[('lock_held', "ctx('holds_global_lock')", ['C06', 'C02']), ('in_loop', 'loop_running()', []), ('serial_bus', 'not self.parallel_handlers', [])],
+            requires=[('lock_held', "ctx('holds_global_lock')", ['C06', 'C02']), ('in_loop', 'loop_running()', [])],
             modifies=[('event_results', '*'), ('status', '*'), ('result', '*'), ('error', '*'), ('started_at', '*'), ('completed_at', '*'), ('_handler_completed_signal', '*'),
                       ('ev_set', '*'), ('task_done', '*'), ('task_cancel_requested', '*'), ('event_processed_at', '*'), ('set_members', '*'), ('_event_completed_signal', '*'), ('event_history', '*')],
-            ghost_modifies=['processed', 'invoked', 'eh_calls', 'wal_calls', 'wal_lines', 'wal_opens', 'cancel_walk_calls'],
+            ghost_modifies=['processed', 'invoked', 'eh_calls', 'spawned_tasks', 'wal_calls', 'wal_lines', 'wal_opens', 'cancel_walk_calls'],
             callsites={'self._get_applicable_handlers': {'pre': pe_first_stmt, 'ghost_writes': ['processed']},
                        'self._execute_handlers': {'pre': pe_before_handlers},
                        'self._default_log_handler': {'pre': lambda ex, n: ex.st.flags.__setitem__('handlers_phase', 'done')},
@@ -408,11 +408,11 @@ def install(spec: Spec):
     STARTED = ('started', 'self._on_idle is not None and self.event_queue is not None and loop_running()', [])
     spec.fn('EventBus.step', file=S, qual='EventBus.step', is_async=True,
             params={'self': 'EventBus', 'event': 'opt[BaseEvent]', 'timeout': 'opt[real]', 'wait_for_timeout': 'real'}, returns='opt[BaseEvent]',
-            requires=[STARTED, LOCK_INV, SERIAL], assume_asserts=['self._on_idle and self.event_queue'], interference='runloop',
+            requires=[STARTED, LOCK_INV], assume_asserts=['self._on_idle and self.event_queue'], interference='runloop',
             modifies=[('q_items', '*'), ('q_unfinished', '*'), ('ev_set', '*'), ('task_done', '*'), ('task_cancel_requested', '*'), ('_depth', '*'),
                       ('_semaphore', '*'), ('_loop', '*'), ('sem_value', '*'), ('sem_loop', '*'), ('g$global_lock', '*'), ('event_results', '*'), ('status', '*'), ('result', '*'), ('error', '*'),
                       ('started_at', '*'), ('completed_at', '*'), ('_handler_completed_signal', '*'), ('event_processed_at', '*'), ('set_members', '*'), ('_event_completed_signal', '*'), ('event_history', '*')],
-            ghost_modifies=['dequeued', 'processed', 'task_done_calls', 'permits_held', 'invoked', 'eh_calls', 'wal_calls', 'wal_lines', 'wal_opens', 'cancel_walk_calls'],
+            ghost_modifies=['dequeued', 'processed', 'task_done_calls', 'permits_held', 'invoked', 'eh_calls', 'spawned_tasks', 'wal_calls', 'wal_lines', 'wal_opens', 'cancel_walk_calls'],
             callsites={'self.event_queue.task_done': {'model': task_done_model, 'writes': ['q_unfinished'], 'ghost_writes': ['task_done_calls']}},
             exits_ensure=[
                 ('no_task_done_for_a_given_event', 'implies(old(event) is not None, task_done_calls == old(task_done_calls))', ['C15']),
@@ -455,11 +455,11 @@ def install(spec: Spec):
                       z3.Or(smt.issub(t, smt.CLASSES['RuntimeError']), smt.issub(t, smt.CLASSES['QueueShutDown'])), ['C11'])
 
     spec.fn('EventBus._run_loop', file=S, qual='EventBus._run_loop', is_async=True, params={'self': 'EventBus'}, returns='NoneType', interference='runloop',
-            requires=[STARTED, SERIAL], ctx_modifies=['holds_global_lock', 'inside_handler', 'current_event', 'current_handler_id'],
+            requires=[STARTED], ctx_modifies=['holds_global_lock', 'inside_handler', 'current_event', 'current_handler_id'],
             modifies=[('_is_running', 'self')] + [('q_items', '*'), ('q_unfinished', '*'), ('ev_set', '*'), ('task_done', '*'), ('task_cancel_requested', '*'), ('_depth', '*'),
                       ('_semaphore', '*'), ('_loop', '*'), ('sem_value', '*'), ('sem_loop', '*'), ('g$global_lock', '*'), ('event_results', '*'), ('status', '*'), ('result', '*'), ('error', '*'),
                       ('started_at', '*'), ('completed_at', '*'), ('_handler_completed_signal', '*'), ('event_processed_at', '*'), ('set_members', '*'), ('_event_completed_signal', '*'), ('event_history', '*')],
-            ghost_modifies=['dequeued', 'processed', 'task_done_calls', 'permits_held', 'invoked', 'eh_calls', 'wal_calls', 'wal_lines', 'wal_opens', 'cancel_walk_calls'],
+            ghost_modifies=['dequeued', 'processed', 'task_done_calls', 'permits_held', 'invoked', 'eh_calls', 'spawned_tasks', 'wal_calls', 'wal_lines', 'wal_opens', 'cancel_walk_calls'],
             callsites={'self.step': {'pre': runloop_step_pre}, 'self._on_idle.set': {'pre': idle_set_pre}},
             exit_hook=runloop_exit,
             loops={0: {'inv': [('started', 'self._on_idle is not None and self.event_queue is not None', []),
@@ -477,8 +477,9 @@ def install(spec: Spec):
         ('results_never_removed', "forall(lambda e, k: implies(k in old(e.event_results), k in e.event_results and e.event_results[k] is old(e.event_results)[k]), 'BaseEvent', 'str')", []),
         ('result_identity_fields', "forall(lambda r: r.handler_id == old(r.handler_id) and r.result_type is old(r.result_type) and r.timeout == old(r.timeout), 'EventResult')", []),
     ]
+    TASK_RELY = [('a_done_task_stays_done', "forall(lambda t: implies(old(t.task_done), t.task_done), 'Task')", [])]      # asyncio (A2)
     spec.interference['handlers'] = Interference('handlers', havoc=['*'], keep=spec.interference['default'].keep + ['event_timeout', 'event_result_type'],
-                                                  rely=spec.interference['default'].rely + [Clause_(c) for c in RESULT_RELY])
+                                                  rely=spec.interference['default'].rely + [Clause_(c) for c in RESULT_RELY + TASK_RELY])
 
     spec.ghosts['invoked'] = parse_ty('int')      # handler invocations started by this task (task-owned)
 
@@ -538,8 +539,9 @@ def install(spec: Spec):
             ])
     spec.methods[('EventBus', 'execute_handler')] = 'EventBus.execute_handler'
 
-    # ------------------------------------------------------------------ _execute_handlers (C01 C10 C11), serial buses
+    # ------------------------------------------------------------------ _execute_handlers (C01 C06 C10 C11), serial and parallel_handlers buses
     spec.ghosts['eh_calls'] = parse_ty('int')     # execute_handler activations started by this task (task-owned)
+    spec.ghosts['spawned_tasks'] = parse_ty('list[Task]')   # tasks created by this task for coroutines under contract, in order (task-owned)
 
     def eh_pre(ex, n):
         ex.ghost_set('eh_calls', mk_int(ex.ghost('eh_calls').term + 1))
@@ -556,16 +558,29 @@ def install(spec: Spec):
     spec.fn('EventBus._execute_handlers', file=S, qual='EventBus._execute_handlers', is_async=True, interference='handlers',
             params={'self': 'EventBus', 'event': 'BaseEvent', 'handlers': 'dict[str,Handler]', 'timeout': 'opt[real]'}, returns='NoneType',
             requires=[('lock_held', "ctx('holds_global_lock')", ['C06']), ('in_loop', 'loop_running()', []),
-                      ('serial_bus', 'not self.parallel_handlers', []),
                       ('keys_are_handler_ids', HK.replace('"str"', "'str'"), ['C01']), ('handlers_is_a_dict', 'wf_dict(handlers)', [])],
             modifies=[('event_results', '*'), ('status', '*'), ('result', '*'), ('error', '*'), ('started_at', '*'), ('completed_at', '*'), ('_handler_completed_signal', '*'),
                       ('ev_set', '*'), ('task_done', '*'), ('task_cancel_requested', '*'), ('event_processed_at', '*'), ('set_members', '*'), ('_event_completed_signal', '*')],
-            ghost_modifies=['invoked', 'eh_calls', 'cancel_walk_calls'],
-            callsites={'self.execute_handler': {'pre': eh_pre, 'ghost_writes': ['eh_calls']}},
-            loops={1: {'inv': [('each_once_so_far', 'eh_calls == old(eh_calls) + loop_i', ['C01'])]},
-                   2: {'inv': [('each_once_so_far', 'eh_calls == old(eh_calls) + loop_i', ['C01'])]}},
+            ghost_modifies=['invoked', 'eh_calls', 'cancel_walk_calls', 'spawned_tasks'],
+            locals={'handler_tasks': 'dict[str,tuple[Task,Handler]]'}, spawns=['EventBus.execute_handler'],
+            callsites={'self.execute_handler': {'pre': eh_pre, 'ghost_writes': ['eh_calls']},
+                       'asyncio.create_task': {'ghost_writes': ['spawned_tasks']}},
+            loops={
+                # parallel_handlers: one task per handler, in handler order, each remembered in handler_tasks ...
+                'for applicable_handlers.items()#0': {'inv': [('each_once_so_far', 'eh_calls == old(eh_calls) + loop_i', ['C01']),
+                            ('one_task_per_handler_so_far', 'len(spawned_tasks) == old(len(spawned_tasks)) + loop_i and len(handler_tasks) == loop_i', ['C01', 'C06', 'C11']),
+                            ('keys_follow_the_handlers', 'forall(lambda j: implies(0 <= j and j < loop_i, list(handler_tasks)[j] == loop_seq[j][0]))', ['C01', 'C06', 'C11']),
+                            # indexed by the position in spawned_tasks, so that the post-condition's index instantiates it directly
+                            ('every_task_is_remembered', 'forall(lambda m: implies(old(len(spawned_tasks)) <= m and m < len(spawned_tasks), '
+                                                         'list(handler_tasks)[m - old(len(spawned_tasks))] == loop_seq[m - old(len(spawned_tasks))][0] and '
+                                                         'handler_tasks[loop_seq[m - old(len(spawned_tasks))][0]][0] is spawned_tasks[m]))', ['C06', 'C11'])]},
+                # ... and every one of them is awaited to its end, whatever the earlier ones ended with
+                'for handler_tasks.items()': {'inv': [('awaited_so_far_are_done', 'forall(lambda j: implies(0 <= j and j < loop_i, loop_seq[j][1][0].task_done))', ['C06', 'C11'])]},
+                'for applicable_handlers.items()#1': {'inv': [('each_once_so_far', 'eh_calls == old(eh_calls) + loop_i', ['C01'])]}},
             exit_hook=only_task_cancellation_escapes,
-            ensures=[('each_handler_executed_once', 'eh_calls == old(eh_calls) + len(handlers)', ['C01', 'C11', 'C10'])],
+            ensures=[('each_handler_executed_once', 'eh_calls == old(eh_calls) + len(handlers)', ['C01', 'C11', 'C10']),
+                     # C06/C11: the caller releases the global lock and completes the event after this returns: no handler task may still run
+                     ('no_handler_task_left_running', 'forall(lambda j: implies(old(len(spawned_tasks)) <= j and j < len(spawned_tasks), spawned_tasks[j].task_done))', ['C06', 'C11', 'C01'])],
             raises=[RaisesClause('CancelledError', label='task_cancelled', tags=['C16'])])
     spec.methods[('EventBus', '_execute_handlers')] = 'EventBus._execute_handlers'
 
